@@ -25,7 +25,7 @@ T = {
     "C06": ("ordered-append analysis of the registered output vector + term patterns of every appended item", "decides: the output vector is assembled from the specified terms in the specified order. Not decided: numeric evaluation.", CIRCUIT_TB),
     "C07": ("constraint-site inventory with classification by operand provenance; missing and unexpected sites reported", "decides: the wrapper's own constraint set is exactly the five classes with the right operands and per-slot coverage.", CIRCUIT_TB),
     "C08": ("term pattern of the grouping recurrence + interval bound; Lean type-check of the conservation theorem in thorough", "decides: grouping term shape + no-wrap bound. The identity itself is the repository's Lean theorem.", CIRCUIT_TB),
-    "C09": ("gate-dominance walk over the term DAG (every per-slot child read is cut by that slot's dummy gate with the same index)", "decides: structural non-interference of dummy slots + sorted nullifier region. Not decided: permutation invariance as a semantic statement.", CIRCUIT_TB),
+    "C09": ("gate-dominance walk over the term DAG (every per-slot child read is cut by that slot's dummy gate with the same index) + the term patterns of the sorting gadget the nullifier region comes out of", "decides: structural non-interference of dummy slots + nullifier region produced by the full sorting network (ingress, comparator, compare-and-swap, n rounds, egress). Not decided: permutation invariance as a semantic statement.", CIRCUIT_TB),
     "C10": ("free-witness inventory (wrappers, constructors, gadgets), term patterns pinning the unsafe booleans and hint decompositions, who-may-call rules", "decides: no free wire beyond declared inputs; decompositions canonical. plonky2's own gadgets trusted.", CIRCUIT_TB),
     "C11": ("who-may-call + provenance of the verifier key + pairing of virtual proofs with verify_proof + guard dominance in constructors", "decides: the child key is a constant of the constructor's parameter and every slot is verified. FRI soundness trusted.", CIRCUIT_TB),
     "C12": ("ordered-append analysis of the public-batch output vector, layout offsets evaluated for all M in 1..64", "decides: forwarding order, masking, offsets. Not decided: numeric evaluation.", CIRCUIT_TB),
